@@ -432,7 +432,7 @@ func c15pinned(c *Ctx, p *load.Program) {
 		}
 		fn := must(p.Func(pkgGuardiand, k.Converter), "guardiand."+k.Converter)
 		for _, r := range acceptingReturns(fn) {
-			fs := facts.Atoms(facts.At(r, nil))
+			fs := facts.Atoms(acceptFacts(r))
 			n := 0
 			why := ""
 			for _, a := range fs {
